@@ -22,7 +22,7 @@ EXHAUSTIVE = {"quick": False, "thorough": False}
 NSHARDS = {"quick": 16, "thorough": 16}
 THRESHOLDS = {"quick": {"c16:collections": 800, "c16:index-checks": 3000, "c16:vec-exhaustive": 363, "c16:zero-first": 50,
                         "c16:zero-middle": 50, "c16:zero-last": 50, "c16:repeated-zeros": 50, "c16:mixed-grid": 100,
-                        "c16:np-int-index": 300, "c16:long-members": 30, "c16:caller-list-mutated": 500, "c16:many-members": 6, "c16:shared-member-names": 60, "c16:index-checks-second-pass": 2000}}
+                        "c16:np-int-index": 300, "c16:long-members": 30, "c16:caller-list-mutated": 500, "c16:rebalanced-in-place": 300, "c16:config-object-reused": 500, "c16:many-members": 6, "c16:shared-member-names": 60, "c16:index-checks-second-pass": 2000}}
 THRESHOLDS["thorough"] = dict(THRESHOLDS["quick"])
 ANCHORS = ["maze_dataset.dataset.collected_dataset:MazeDatasetCollection.__getitem__",
            "maze_dataset.dataset.collected_dataset:MazeDatasetCollection.__len__",
@@ -114,6 +114,37 @@ def check_vector(ctx, lengths, grids, rng, tag):
         col.update_self_config()
         ctx.check(col.cfg.n_mazes == total and len(col) == total, "C16/after-update_self_config-disagree",
                   f"cfg.n_mazes={col.cfg.n_mazes} len={len(col)}", case)
+        # members re-balanced in place (a maze moved from the last non-empty member to the first one; the total stays): items,
+        # length and per-member lengths follow the members as they are now (the flattened .mazes list is a cached snapshot in the
+        # library and is not consulted here)
+        nonempty = [k for k, m in enumerate(members) if len(m.mazes) > 0]
+        if tag not in ("many", "big") and len(members) >= 2 and nonempty and nonempty[-1] != 0:
+            moved = members[nonempty[-1]].mazes.pop()
+            members[0].mazes.append(moved)
+            flat2 = [mz for m in members for mz in m.mazes]
+            lens2 = [len(m.mazes) for m in members]
+            ctx.tally("c16:rebalanced-in-place")
+            okr = len(col) == total and list(col.dataset_lengths) == lens2
+            bad_i = None
+            for i in range(total):
+                try:
+                    if col[i] is not flat2[i]:
+                        bad_i = i; break
+                except Exception:  # noqa: BLE001
+                    bad_i = i; break
+            ctx.check(okr and bad_i is None, "C16/getitem-wrong-after-members-rebalanced-in-place",
+                      f"lengths {list(lengths)} -> {lens2}: len={len(col)} dataset_lengths={list(col.dataset_lengths)} first wrong index {bad_i}", case)
+        # the same collection-config object re-used for a second collection after its member list changed
+        if tag not in ("many", "big") and len(members) >= 1:
+            extra = MazeDataset(MazeDatasetConfig(name="later2", grid_n=2, n_mazes=2), [_maze(2, rng), _maze(2, rng)])
+            for m in members:
+                m.update_self_config()
+            ccfg.maze_dataset_configs = [m.cfg for m in members] + [extra.cfg]
+            col2 = MazeDatasetCollection(ccfg, members + [extra])
+            total2 = sum(len(m.mazes) for m in members) + 2
+            ctx.tally("c16:config-object-reused")
+            ctx.check(len(col2) == total2 and col2.cfg.n_mazes == total2 and sum(col2.dataset_lengths) == total2, "C16/cfg-n_mazes-wrong",
+                      f"second collection built from the re-used config object: len={len(col2)} sum(dataset_lengths)={sum(col2.dataset_lengths)} cfg.n_mazes={col2.cfg.n_mazes}, expected {total2}", case)
     nz = [L > 0 for L in lengths]
     if sum(nz) >= 2 and not all(nz):
         ctx.nontrivial(tuple(lengths), tuple(grids))
